@@ -122,6 +122,14 @@ def run_witnesses(cfg, scratch, ledger):
                     "--exclude", "/fuzz", REPO.rstrip("/") + "/", dst + "/"], check=True)
     env = dict(os.environ)
     env["CARGO_NET_OFFLINE"] = "true"
+    # optional build cache (tooling only, e.g. vf/seed_eval.py: VF_WITNESS_TARGET=<dir>): dependencies compile once; the crate itself is
+    # always rebuilt from the scratch copy (its lib.rs is touched, so cargo never takes a binary built from another tree for fresh).
+    # The registered commands do not set it: every check builds in its own scratch directory.
+    cache = os.environ.get("VF_WITNESS_TARGET")
+    if cache:
+        os.makedirs(cache, exist_ok=True)
+        env["CARGO_TARGET_DIR"] = cache
+        os.utime(os.path.join(dst, "src", "lib.rs"), None)
     for fn in files:
         text = open(os.path.join(VF, "witness", fn)).read()
         labels = dict((m.group(2), m.group(1)) for m in re.finditer(r"/// OBL (\S+)\n#\[test\]\nfn (\w+)", text))
